@@ -9,7 +9,7 @@ package srt
 // part without a trailing "#feedbackplay"); standard syntax  #!::k=v,...  (the last value given for a key wins).
 
 //@ func (s *streamID) unmarshal
-//@   property C34
+//@   property C34, C35
 //@   def std() bool = hasPrefix(raw, "#!::")
 //@   def n() int = splitCount(raw, ":")
 //@   def part(k int) string = ite(k == n()-1, trimSuffix(splitPart(raw, ":", k), "#feedbackplay"), splitPart(raw, ":", k))
